@@ -276,7 +276,7 @@ func (h *Hist) Step() {
 		}
 		e.Visit(-1, name, kind, Target(r, m, h.Keys[name]), r.Bool(), stop)
 	case 10:
-		if name != "" && len(e.M.Live.Colls[name].Items) > 0 {
+		if name != "" {
 			e.Len(-1, name)
 		}
 	case 11:
